@@ -109,7 +109,7 @@ def line(l, st):
     if k == 'blank':
         return ''
     if k == 'badshape':
-        return up('vector') + '(10,20,5,30)' + (' # vector=1' if st['paren'] else '')
+        return up('vector') + '(10,20,5,30)' + (' ||' if l.get('cont') else '') + (' # vector=1' if st['paren'] else '')
     if k == 'badword':
         return 'foobar(1,2,3)'
     if k == 'composite':
